@@ -268,11 +268,13 @@ def alias_cases(rng, cats, n_random):
     return out
 
 
-def exhaustive_cases(cats):
+def exhaustive_cases(cats, locked=False):
     """all interleavings of two callers (one operation each) on one key x every placement of the first write-back,
     for every key class and tier configuration"""
     out = []
-    pairs = [("get", "del", 2, 2, "s"), ("get", "set", 2, 2, "s"), ("append", "append", 4, 4, "l"), ("append", "remove", 4, 4, "l"),
+    # tier calls per operation: the repaired Get is cache, re-check, persistent, fill; a repaired list call adds the fill
+    g, l = (4, 5) if locked else (2, 4)
+    pairs = [("get", "del", g, 2, "s"), ("get", "set", g, 2, "s"), ("append", "append", l, l, "l"), ("append", "remove", l, l, "l"),
              ("set", "set", 2, 2, "s"), ("set", "del", 2, 2, "s"), ("exists", "del", 2, 2, "s")]
     keys = ["tunnox:user:1", "tunnox:conn_state:1", "tunnox:client_mappings:1", "tunnox:temp:1"]
     for (a, b, sa, sb, kind), key, shared, pers, cold in itertools.product(pairs, keys, (True, False), (True, False), (True, False)):
@@ -326,6 +328,8 @@ def enc_res(r):
 def modelled(c):
     if c["mode"] == "nodes":
         return True
+    if c["mode"] == "sched" and c.get("locks") == "wb" and any(o["op"] in ("append", "remove") for t in c["threads"] for o in t["ops"]):
+        return False  # write-back fix without the list fix: a list call re-takes the lock it just released, which the harness cannot observe
     return c["mode"] == "sched" and not c.get("raw") and all(o["op"] in OPC for t in c["threads"] for o in t["ops"])
 
 
@@ -333,7 +337,7 @@ def case_value(c, o, fixed):
     if c["mode"] == "cat":
         return [1, [], [k.encode() for k in c["keys"]], [], [], [], 0, [[cat, bool(sh)] for cat, sh in zip(o["cats"], o["cache_shared"])]]
     if c["mode"] == "nodes":
-        cfgv = [bool(c["shared"]), bool(c["pers"]), bool(fixed["incr"]), bool(fixed["setnx"])]
+        cfgv = [bool(c["shared"]), bool(c["pers"]), bool(fixed["incr"]), bool(fixed["setnx"]), bool(fixed["wb"]), bool(fixed["list"]), bool(fixed["cwf"]), bool(fixed["cre"])]
         init = [[i["tier"], i["k"], enc_val(i)] for i in c["init"]]
         steps = []
         for st in c["steps"]:
@@ -343,7 +347,7 @@ def case_value(c, o, fixed):
         tier = lambda t: [[e[0], enc_obs_val(e[1])] for e in t]
         return [2, cfgv, [k.encode() for k in c["keys"]], init, steps, [], c["nodes"],
                 [[enc_res(r) for r in o["results"]], [tier(t) for t in o["locals"]], tier(o["shared"]), tier(o["pers"])]]
-    cfgv = [bool(c["shared"]), bool(c["pers"]), bool(fixed["incr"]), bool(fixed["setnx"])]
+    cfgv = [bool(c["shared"]), bool(c["pers"]), bool(fixed["incr"]), bool(fixed["setnx"]), bool(fixed["wb"]), bool(fixed["list"]), bool(fixed["cwf"]), bool(fixed["cre"])]
     init = [[i["tier"], i["k"], enc_val(i)] for i in c["init"]]
     ths = []
     for t, lg in zip(c["threads"], o["logs"]):
@@ -377,8 +381,16 @@ def late_writebacks(c, o):
 
 
 def failed_cache_write(c, o, k):
+    """a cache.Set / cache.Delete of a mutation of key k failed although that mutation reported success"""
     n = len(c["threads"])
-    return any(a["fault"] and a["who"] < n and a["ki"] == k and a["tier"] != 2 and a["m"] in ("Set", "Delete") for a in o["acc"])
+    for who, lg in enumerate(o["logs"]):
+        for r in lg:
+            if r["k"] != k or r["op"] not in MUTATING or r["first"] < 0 or r["res"][0] not in (0, 4, 5):
+                continue
+            if any(a["fault"] and a["who"] == who and a["ki"] == k and a["tier"] != 2 and a["m"] in ("Set", "Delete")
+                   and r["first"] <= a["step"] <= r["last"] for a in o["acc"]):
+                return True
+    return False
 
 
 def failed_cache_read(c, o, k):
@@ -463,6 +475,12 @@ def run(ctx, only_cases=None):
     po = vlib.run_harness(binary, probe)
     fixed = {"incr": all(a["tier"] == 1 for a in po[0]["acc"]) and len(po[0]["acc"]) == 1,
              "setnx": any(a["tier"] == 2 for a in po[1]["acc"]) and all(a["tier"] != 0 for a in po[1]["acc"])}
+    # the four key-lock / failure-handling repairs (fixes/C14-writeback-key-lock, -list-rmw-key-lock, -failed-cache-write-invalidate,
+    # -cache-read-error): behavioural probes — is the key lock held during the tier calls of Set / AppendToList, does a failing cache.Set
+    # of a Set get invalidated, does a failing cache.Get on a runtime key surface as an error
+    pr = vlib.run_harness(binary, [{"mode": "probe"}])[0]
+    fixed.update({"wb": bool(pr["lock_in_set"]), "list": bool(pr["lock_in_append"]), "cwf": bool(pr["invalidates"]), "cre": bool(pr["read_error_is_error"])})
+    locks = "wb+list" if (fixed["wb"] and fixed["list"]) else "wb" if fixed["wb"] else ""
 
     if only_cases is not None:
         cases = only_cases
@@ -476,7 +494,7 @@ def run(ctx, only_cases=None):
         cases += alias_cases(rng, cats, 3000 if thorough else 300)
         g = Gen(rng, cats, fixed["setnx"])
         cases += [g.case() for _ in range(12000 if thorough else 1200)]
-        ex = exhaustive_cases(cats)
+        ex = exhaustive_cases(cats, locked=bool(fixed["wb"]))
         cases += ex if thorough else [ex[i] for i in sorted(rng.sample(range(len(ex)), 600))]
         # category correspondence on arbitrary keys: prefixes, truncations, extensions, mutations
         allp = sorted({p.split("%d")[0] for p in POOL}) + ["tunnox:", "webhooks:", "webhook_log:", "webhook_logs:", "tunnox:mappings:list", ""]
@@ -500,6 +518,9 @@ def run(ctx, only_cases=None):
                       for n in ((4, 16, 64) if thorough else (8, 32))]
         cases += [{"mode": "stress", "shared": True, "pers": True, "keys": ["tunnox:client_mappings:5"], "n": 16, "m": 30, "kind": "append"}]
 
+    for c in cases:
+        if c["mode"] in ("sched", "nodes"):
+            c["locks"] = locks
     outs = vlib.run_harness(binary, cases, timeout=2400)
     nfail, keys_hit = 0, {}
     stats = {"sched_cases": 0, "cat_cases": 0, "stress_cases": 0, "alias_mode_cases": sum(1 for c in cases if c.get("raw")), "nodes_steps": 0, "late_writebacks": 0, "writebacks_spawned": 0, "faults_injected": 0,
@@ -578,7 +599,7 @@ def run(ctx, only_cases=None):
                 "non-trivial = prescribed schedule non-empty and (two operations overlap or a write-back was spawned); distinct by (scripts, "
                 "schedule, initial contents, keys, configuration).",
         "samples": samples,
-        "tree_variant": {"incr_repaired": fixed["incr"], "setnx_repaired": fixed["setnx"]},
+        "tree_variant": {k + "_repaired": bool(v) for k, v in fixed.items()},
         "model_vs_impl_cases": len(terms), "model_vs_impl_mismatches": len(mism), "impl_predicate_failures": nfail,
         "input_distribution": stats, "generated_file_changed": gen_changed, "exhaustive": False,
     })
